@@ -25,8 +25,20 @@ def _z3_check(smt2, timeout_ms, want_model):
         return 'unsat', '', None
     if r == z3.sat:
         model = {}
+        m = s.model()
+        # z3's sequence solver occasionally answers sat with an assignment that does not satisfy the
+        # query (uninterpreted functions over strings).  A model that falsifies a quantifier-free
+        # assertion is no counterexample: report `unknown` and let cvc5 decide.
+        try:
+            for a in s.assertions():
+                if _has_quant(z3, a):
+                    continue
+                v = m.eval(a, model_completion=True)
+                if z3.is_false(v):
+                    return 'unknown', 'z3 sat with a model that falsifies an assertion (spurious)', None
+        except z3.Z3Exception:
+            pass
         if want_model:
-            m = s.model()
             for d in m.decls():
                 if d.arity() == 0:
                     try:
@@ -35,6 +47,20 @@ def _z3_check(smt2, timeout_ms, want_model):
                         pass
         return 'sat', '', model
     return 'unknown', s.reason_unknown(), None
+
+
+def _has_quant(z3, e):
+    seen = set()
+    stack = [e]
+    while stack:
+        x = stack.pop()
+        if x.get_id() in seen:
+            continue
+        seen.add(x.get_id())
+        if z3.is_quantifier(x):
+            return True
+        stack.extend(x.children())
+    return False
 
 
 def _cvc5_check(smt2, timeout_ms, want_model):
